@@ -335,7 +335,8 @@ fn keywords() -> &'static HashSet<&'static str> {
     static KEYWORDS: OnceLock<HashSet<&'static str>> = OnceLock::new();
     KEYWORDS.get_or_init(|| {
         HashSet::from_iter([
-            "let", "into", "case", "prql", "type", "module", "internal", "func",
+            "let", "into", "case", "prql", "type", "module", "internal", "func", "import", "enum",
+            "true", "false", "null",
         ])
     })
 }
@@ -345,7 +346,7 @@ fn valid_prql_ident() -> &'static Regex {
     VALID_PRQL_IDENT.get_or_init(|| {
         // Pomsky expression (regex is to Pomsky what SQL is to PRQL):
         // ^ ('*' | [ascii_alpha '_$'] [ascii_alpha ascii_digit '_$']* ) $
-        Regex::new(r"^(?:\*|[a-zA-Z_$][a-zA-Z0-9_$]*)$").unwrap()
+        Regex::new(r"^(?:\*|[a-zA-Z_][a-zA-Z0-9_]*)$").unwrap()
     })
 }
 
